@@ -151,7 +151,19 @@ class Renderer:
     for n, d, t in c["ports"]:
       if "." in n: continue                       # member of an interface instance, declared by the interface class
       declare(n, f"{'InPort' if d == 'in' else 'OutPort'}( {self.tname(t)} )")
+    done_ifc = set()
     for attr, iname in c.get("ifc_insts", []):
+      if "[" in attr:                               # element of a (1-D / 2-D) list of interfaces: declared once
+        base = attr.split("[", 1)[0]
+        if base in done_ifc: continue
+        done_ifc.add(base)
+        tuples = [tuple(int(x) for x in a.split("[", 1)[1].rstrip("]").split("][")) for a, _ in c["ifc_insts"]
+                  if a.split("[", 1)[0] == base]
+        dims = [max(t_[k] for t_ in tuples) + 1 for k in range(len(tuples[0]))]
+        e = f"{iname}_{tag}()"
+        for dm in reversed(dims): e = f"[ {e} for _ in range({dm}) ]"
+        decl.append(f"    s.{base} = {e}")
+        continue
       decl.append(f"    s.{attr} = {iname}_{tag}()")
     for n, t in c["wires"]:
       declare(n, f"Wire( {self.tname(t)} )")
